@@ -16,27 +16,54 @@
     the *Specs objects vs the model's `factor` (exact rationals), and the
     homogeneity of the column operators (model executed on rescaled inputs,
     implementation on rescaled inputs)."""
-import ast, os
+import ast, os, re
 import numpy as np
 from fractions import Fraction
 from harness import util, dyn
 
 THEOREMS = ['C12_factor_homomorphism', 'C12_welldim_homogeneous', 'C12_scale_independence', 'C12_columns_homogeneous',
-            'C12_nodal_terms_homogeneous', 'C12_step_covariant', 'C12_trajectory_covariant', 'C12_log_pressure_shift',
-            'C12_p_over_p0_invariant', 'C12_p_over_p0_invariant_R', 'C12_hyps_satisfiable']
+            'C12_nodal_terms_homogeneous', 'C12_moist_and_vertical_terms_homogeneous', 'C12_step_covariant',
+            'C12_trajectory_covariant', 'C12_column_relations', 'C12_column_hypotheses_discharged',
+            'C12_column_steps_covariant', 'C12_held_suarez_homogeneous', 'C12_log_pressure_shift',
+            'C12_p_over_p0_invariant', 'C12_p_over_p0_invariant_R', 'C12_hyps_satisfiable', 'C12_column_hyps_satisfiable']
 LEVEL = 'proof'
 LEVEL_TEXT = ('Coq theorems for every field and all non-zero scales: factor is a group homomorphism Z^4 -> F*; EVERY '
               'dimensionally well-typed expression of field operations is scale-covariant (hence re-dimensionalised '
-              'results under two scales coincide); homogeneity of the sigma-column operators and of the nodal '
-              'primitive-equation terms; every IMEX step commutes with an affine change of scale; gradients kill the '
-              'log-pressure shift and exp(lnps)/p0 is invariant. Call-graph bypasses (hard-coded constants) are outside '
-              'the algebra and are decided on the implementation: same SI problem under >= 3 scales, all equation '
-              'classes, plus an AST scan of scale-dependent default arguments.')
+              'results under two scales coincide); covariance of the sigma-column operators and of ALL nodal '
+              'primitive-equation terms of the dry, moist and cloud classes (incl. the T_ref-nonuniform branch, which '
+              'is scale-invariant); every IMEX integrator commutes with an affine change of scale for the step sizes '
+              'whose implicit solves are defined, and for the implicit column model of the primitive equations the '
+              'hypotheses on implicit terms and resolvent are PROVED (rescaled inverse = inverse of the rescaled matrix; '
+              'uses functional extensionality), only the explicit terms stay abstract; Held-Suarez rates / equilibrium '
+              'temperature / nodal tendencies covariant over ordered fields with positive temperature scale, p/p0 '
+              'invariant; gradients kill the log-pressure shift and exp(lnps)/p0 is invariant. Call-graph bypasses '
+              '(hard-coded constants) are outside the algebra and are decided on the implementation: same SI problem '
+              'under >= 4 scales, all equation classes, plus AST scans of scale-dependent default arguments, of module '
+              'constants used in bodies and of numeric literal defaults of dimensional parameters.')
 LEVEL_NOTE = ('theorems are about expression programs and the column/step models; the implementation as a whole '
               '(spectral transforms, JAX) is tied to them by the multi-scale oracle and the call-site scan, not by proof')
 TECHNIQUE = 'Coq proof (dimension typing => scale covariance) + multi-scale differential oracle on the implementation + AST call-site scan'
 
 TOL = 1e-9
+
+# Parameters whose NAME says they carry a physical dimension: a non-zero numeric literal default for one of them is a
+# number in some fixed unit system and cannot follow the scale.
+DIMENSIONAL_PARAM = (r'^(tau|dt|eta|step_size|.*time.*|.*period.*|radius|.*pressure.*|p0|p1|t0|u0|tref|.*temperature.*|gamma|'
+                     r'delta_t|.*gravity.*|.*gas_constant.*|.*heat_capacity.*|angular_velocity|omega|k[fas]|minT|maxT|dTy|dThz|'
+                     r'.*irradiance.*|.*viscosity.*|.*diffusiv.*|nu|.*velocity.*|.*height.*|.*orography.*|.*densit.*|.*potential.*)$')
+# Documented exceptions present in the reviewed tree (module, function, parameter, literal):
+#  * dinosaur/time_integration.py:508 exponential_step_filter(tau=0.010938) and
+#    dinosaur/time_integration.py:539 exponential_leapfrog_step_filter(tau=0.010938): a time in units of DEFAULT_SCALE
+#    (about 75 s); it is a user parameter, but shallow_water.default_filters (dinosaur/shallow_water.py:334) relies on
+#    it, so default_filters(grid, dt) is scale dependent (same SI dt: filtered sums 16.50 / 9.85 under DEFAULT / SI).
+#    Reported in the evidence notes, not claimed as a violation.
+#  * dinosaur/vertical_interpolation.py:273 HybridCoordinates.to_approx_sigma_coords(surface_pressure=1013.25): hPa, the
+#    fixed unit of the hybrid-coordinate tables (a_boundaries are stored in hPa); independent of the model scale.
+ALLOWED_LITERAL_DEFAULTS = {
+    ('time_integration', 'exponential_step_filter', 'tau', '0.010938'),
+    ('time_integration', 'exponential_leapfrog_step_filter', 'tau', '0.010938'),
+    ('vertical_interpolation', 'to_approx_sigma_coords', 'surface_pressure', '1013.25'),
+}
 # Rounding noise is not scale-invariant: the linear algebra of a step (np.linalg.inv of the implicit matrix, spectral
 # transforms) mixes fields whose non-dimensional magnitudes differ by many decades under an exotic scale, so a field
 # can pick up LEAK * (largest non-dimensional magnitude in that run) of noise.  This absolute allowance (converted to
@@ -119,6 +146,12 @@ def generate(ctx):
         yield 'sigma_homog', {'K': K, 'scale': _rand_scale(rng), 'seed': seed()}
     for K in ([1, 3] if quick else [1, 2, 3, 4, 6]):
         yield 'nodal_homog', {'K': K, 'scale': _rand_scale(rng), 'seed': seed(), 'va': int(rng.integers(0, 2))}
+    for K in ([1, 3] if quick else [1, 2, 3, 4, 6]):
+        yield 'moist_homog', {'K': K, 'scale': _rand_scale(rng), 'seed': seed(), 'va': int(rng.integers(0, 2)), 'sparse': int(rng.integers(0, 2)),
+                              'uniform_tref': int(K == 3)}
+        yield 'column_homog', {'K': K, 'scale': _rand_scale(rng), 'seed': seed(), 'mean_mode': int(rng.integers(0, 2))}
+    for _ in range(1 if quick else 4):
+        yield 'column_matrix', {'scales': _scales(ctx, ns), 'seed': seed(), 'K': 3}
     for _ in range(3 if quick else 12):
         yield 'expr', {'scale': _rand_scale(rng), 'seed': seed()}
     # whole-model oracles
@@ -652,6 +685,73 @@ def r_nodal_homog(ctx, a):
     ctx.exact('model: nodal terms non-trivial', bool(any(v != 0 for v in mo[n:])), True)
 
 
+def r_moist_homog(ctx, a):
+    """moist / cloud nodal terms, vertical temperature tendency and total nodal right-hand sides of Model/PrimEq.v on
+    rescaled inputs: exact covariance in Q (theorem C12_moist_and_vertical_terms_homogeneous executed)."""
+    m = M(); sc = m['sc']
+    rng = np.random.Generator(np.random.PCG64(a['seed']))
+    K = a['K']; b = util.uneven_boundaries(rng, K); sv = _scale_vec(a['scale'])
+    ls = np.log(sc.SigmaCoordinates(b).centers)
+    col = lambda: [float(v) for v in util.small_rationals(rng, (K,))]
+    frac = lambda: [float(v) for v in rng.integers(1, 9, size=K) / 256.0]
+    tref = [250.0] * K if a['uniform_tref'] else [float(v) for v in 250 + rng.integers(-20, 21, size=K)]
+    arrs = [ls, b, tref, [287.0, 2.0 / 7.0, 461.0, 1859.0], col(), col(), col(), col(), col(),
+            [float(v) for v in util.small_rationals(rng, (5,))], frac(), frac(), frac(), col(), col(), sv]
+    mo = ctx.model.call(8, [K, a['va'], a['sparse']], arrs)
+    n = len(mo) // 2
+    ctx.exact('model: moist/cloud/vertical nodal terms are covariant with the dimension assignment (exact)',
+              [str(v) for v in mo[:n]], [str(v) for v in mo[n:]])
+    ctx.exact('model: T_ref-nonuniform branch flag', int(mo[n - 1]), 0 if (a['uniform_tref'] or K == 1) else int(mo[n - 1]))
+    ctx.count('tref_nonuniform:%d' % int(mo[n - 1]))
+
+
+def r_column_homog(ctx, a):
+    """implicit column operators of Model/Implicit.v: implicit terms of the rescaled column = rescaled implicit terms
+    (exact in Q), with the shift of lnps in the mean mode (lam = 0)."""
+    m = M(); sc = m['sc']
+    rng = np.random.Generator(np.random.PCG64(a['seed']))
+    K = a['K']; b = util.uneven_boundaries(rng, K); sv = _scale_vec(a['scale'])
+    ls = np.log(sc.SigmaCoordinates(b).centers)
+    col = lambda: [float(v) for v in util.small_rationals(rng, (K,))]
+    lam, shift = (0.0, float(rng.integers(1, 40)) / 4) if a['mean_mode'] else (-float(rng.integers(1, 30)), 0.0)
+    arrs = [ls, b, [float(v) for v in 250 + rng.integers(-20, 21, size=K)], [287.0, 2.0 / 7.0], col(), col(),
+            [float(rng.integers(-8, 9)) / 4, lam, shift], sv]
+    mo = ctx.model.call(7, [K], arrs)
+    n = len(mo) // 2
+    ctx.exact('model: implicit terms of the rescaled column = rescaled implicit terms (exact)', [str(v) for v in mo[:n]], [str(v) for v in mo[n:]])
+    ctx.exact('model: implicit terms non-trivial', bool(any(v != 0 for v in mo[n:])), True)
+
+
+def r_column_matrix(ctx, a):
+    """implementation: the implicit matrix under a scale is D M D^-1 of the matrix under DEFAULT_SCALE (D = diag of the
+    factors of divergence, temperature, lnps), and its numpy inverse is D M^-1 D^-1 - the hypothesis of the column
+    step theorem evaluated on _get_implicit_term_matrix."""
+    m = M(); pe = m['pe']
+    rng = np.random.Generator(np.random.PCG64(a['seed']))
+    K = a['K']; p = _pe_problem(rng, 'dry', K)
+    labels = ['default'] + a['scales']
+    mats = []
+    for sv in labels:
+        specs, g, c, st, eq = _pe_setup(sv, p, 'dry')
+        eta = 0.5 * float(_ND(specs, p['dt'], 'second'))
+        Mx = pe._get_implicit_term_matrix(eta, c, np.asarray(_ND(specs, p['tref'], 'kelvin')), specs.kappa, specs.R)
+        d = np.concatenate([np.full(K, _fac(specs, '1/second')), np.full(K, _fac(specs, 'kelvin')), [1.0]])   # nondim -> SI
+        mats.append((Mx, d))
+    M0, d0 = mats[0]
+    for lab, (Mx, d) in zip(labels[1:], mats[1:]):
+        r = d0 / d                                    # non-dimensional value under `lab` = r * value under default
+        want = r[None, :, None] * M0 / r[None, None, :]
+        ctx.oracle_close('implicit matrix under a scale = D M D^-1 of the matrix under DEFAULT_SCALE', Mx, want,
+                         scale=float(np.max(np.abs(want))), tol_rel=1e-9)
+        # the numpy inverse under the scale inverts the rescaled default matrix; the residual is measured in the
+        # units of DEFAULT_SCALE (R = D^-1 (inv . D M D^-1 - I) D), where the matrix is well scaled
+        invx = np.linalg.inv(Mx)
+        res = np.einsum('lij,ljk->lik', invx, want) - np.eye(2 * K + 1)[None]
+        resn = res * r[None, None, :] / r[None, :, None]
+        ctx.oracle('numpy inverse of the matrix under a scale inverts the rescaled matrix D M D^-1', bool(np.all(np.abs(resn) <= 1e-6)),
+                   {'scale': lab, 'max_residual(DEFAULT units)': float(np.max(np.abs(resn)))})
+
+
 # ---------------------------------------------------------------------------
 # dimension typing of expressions (model level, exact): well-typed => covariant; ill-typed rejected
 # ---------------------------------------------------------------------------
@@ -793,33 +893,35 @@ def scan_repo(repo):
                         ok = (fn['param'] in kws) or (fn['index'] is not None and not star and len(c.args) > fn['index'])
                         if not ok:
                             bad.append(f'dinosaur/{mod}.py:{c.lineno}: call of {fn["qualname"]} relies on the default {fn["param"]}={fn["default"]}')
-    # informational: numeric literal defaults of time-scale parameters and call sites relying on them
-    lit = []
+    # numeric literal defaults of parameters that carry a dimension, and call sites relying on them
+    lit, lit_new, litfuncs = [], [], {}
+    pat = re.compile(DIMENSIONAL_PARAM)
     for mod, t in trees.items():
         for node in ast.walk(t):
-            if isinstance(node, ast.FunctionDef):
+            if isinstance(node, (ast.FunctionDef, ast.AsyncFunctionDef)):
                 ar = node.args; pos = ar.posonlyargs + ar.args
                 defaults = [None] * (len(pos) - len(ar.defaults)) + list(ar.defaults)
-                for p, dflt in zip(pos, defaults):
-                    if p.arg in ('tau', 'dt', 'timescale') and isinstance(dflt, ast.Constant) and isinstance(dflt.value, float):
-                        lit.append(f'dinosaur/{mod}.py:{node.lineno}: {node.name}({p.arg}={dflt.value}) is a non-dimensional literal default')
-    litnames = {}
-    for mod, t in trees.items():
-        for node in ast.walk(t):
-            if isinstance(node, ast.FunctionDef):
-                ar = node.args; pos = ar.posonlyargs + ar.args
-                defaults = [None] * (len(pos) - len(ar.defaults)) + list(ar.defaults)
-                for i, (p, dflt) in enumerate(zip(pos, defaults)):
-                    if p.arg == 'tau' and isinstance(dflt, ast.Constant) and isinstance(dflt.value, float):
-                        litnames[node.name] = i
+                skip = 1 if pos and pos[0].arg in ('self', 'cls') else 0
+                items = [(i - skip, p, dv) for i, (p, dv) in enumerate(zip(pos, defaults))] + [(None, p, dv) for p, dv in zip(ar.kwonlyargs, ar.kw_defaults)]
+                for i, p, dv in items:
+                    v = dv.operand if isinstance(dv, ast.UnaryOp) else dv
+                    if (isinstance(v, ast.Constant) and isinstance(v.value, (int, float)) and not isinstance(v.value, bool)
+                            and v.value != 0 and pat.match(p.arg)):
+                        key = (mod, node.name, p.arg, ast.unparse(dv))
+                        msg = f'dinosaur/{mod}.py:{node.lineno}: {node.name}({p.arg}={ast.unparse(dv)})'
+                        (lit if key in ALLOWED_LITERAL_DEFAULTS else lit_new).append(msg)
+                        litfuncs.setdefault(node.name, []).append((i, p.arg, key in ALLOWED_LITERAL_DEFAULTS))
+    lit_calls = []
     for mod, t in trees.items():
         for c in ast.walk(t):
             if isinstance(c, ast.Call):
                 nm = c.func.id if isinstance(c.func, ast.Name) else c.func.attr if isinstance(c.func, ast.Attribute) else None
-                if nm in litnames and 'tau' not in {k.arg for k in c.keywords} and len(c.args) <= litnames[nm]:
-                    lit.append(f'dinosaur/{mod}.py:{c.lineno}: call of {nm} relies on the literal non-dimensional default tau')
+                for i, pn, allowed in litfuncs.get(nm, ()):
+                    if pn not in {k.arg for k in c.keywords} and not (i is not None and len(c.args) > i):
+                        lit_calls.append(f'dinosaur/{mod}.py:{c.lineno}: call of {nm} relies on the literal default {pn}')
     return dict(consts={k: sorted(v) for k, v in consts.items() if v}, module_scales={k: sorted(v) for k, v in mscales.items() if v},
-                funcs=funcs, ncalls=ncalls, bad=sorted(set(bad)), body_uses=sorted(set(body_uses)), unparsed=unparsed, literal_defaults=lit)
+                funcs=funcs, ncalls=ncalls, bad=sorted(set(bad)), body_uses=sorted(set(body_uses)), unparsed=unparsed, literal_defaults=lit, literal_defaults_new=lit_new,
+                literal_default_calls=lit_calls)
 
 
 def r_ast_scan(ctx, a):
@@ -832,10 +934,15 @@ def r_ast_scan(ctx, a):
     ctx.table_obligation('module-level non-dimensional constants and fixed scales are not used inside function bodies',
                          not r['body_uses'], r['body_uses'])
     ctx.count('scan:functions_with_scale_dependent_defaults', len(r['funcs'])); ctx.count('scan:call_sites', r['ncalls'])
-    if r['literal_defaults']:
-        ctx.notes.append({'literal non-dimensional defaults (informational)': r['literal_defaults']})
+    ctx.table_obligation('no numeric literal default for a dimensional parameter beyond the documented exceptions',
+                         not r['literal_defaults_new'], {'new': r['literal_defaults_new'], 'documented exceptions present': r['literal_defaults']})
+    ctx.count('scan:documented_literal_defaults', len(r['literal_defaults']))
+    if r['literal_defaults'] or r['literal_default_calls']:
+        ctx.notes.append({'documented literal defaults of dimensional parameters (user-parameter defaults, not claimed as violations)': r['literal_defaults'],
+                          'call sites relying on them (scale-dependent behaviour of the caller)': r['literal_default_calls']})
 
 
-RUNNERS = {'ast_scan': r_ast_scan, 'units': r_units, 'sigma_homog': r_sigma_homog, 'nodal_homog': r_nodal_homog, 'expr': r_expr, 'pe': r_pe,
+RUNNERS = {'ast_scan': r_ast_scan, 'units': r_units, 'sigma_homog': r_sigma_homog, 'nodal_homog': r_nodal_homog, 'moist_homog': r_moist_homog, 'column_homog': r_column_homog,
+           'column_matrix': r_column_matrix, 'expr': r_expr, 'pe': r_pe,
            'held_suarez': r_held_suarez, 'shallow_water': r_shallow_water, 'filters': r_filters, 'helpers': r_helpers,
            'init_states': r_init_states, 'radiation': r_radiation}
